@@ -52,6 +52,10 @@ pub open spec fn cmp_leaf(e: Expression, c: &str) -> bool {
 pub open spec fn is_range_binop(e: Expression) -> bool { e matches Expression::BinaryOp { op, .. } && range_op(op) }
 pub open spec fn range_leaf(e: Expression, c: &str) -> bool { cmp_leaf(e, c) && range_op(e->BinaryOp_op) }
 pub open spec fn between_leaf(e: Expression, c: &str) -> bool {
+    e matches Expression::Between { expr, low, high, negated, symmetric } && !negated && !symmetric && is_col(*expr, c) && lit_nonnull(*low) && lit_nonnull(*high)
+}
+/// `c BETWEEN [SYMMETRIC] lit AND lit` (not negated, non-NULL literals): the BETWEEN nodes whose meaning on a non-NULL value is defined below
+pub open spec fn between_any(e: Expression, c: &str) -> bool {
     e matches Expression::Between { expr, low, high, negated, symmetric } && !negated && is_col(*expr, c) && lit_nonnull(*low) && lit_nonnull(*high)
 }
 /// TRUE-set of e (Some(b): inside the modelled fragment - conjunctions of leaves; None: outside, nothing is claimed)
@@ -66,7 +70,10 @@ pub open spec fn holds(e: Expression, c: &str, v: Val) -> Option<bool>
             else if is_col(*left, c) { Some(cmp_sem(op, v, lit_val(*right))) }
             else { Some(cmp_sem(op, lit_val(*left), v)) },
         Expression::Between { expr, low, high, negated, symmetric } =>
-            if between_leaf(e, c) && !symmetric { Some(val_le(lit_val(*low), v) && val_le(v, lit_val(*high))) } else { None },
+            // SQL: x BETWEEN SYMMETRIC a AND b  ==  (x BETWEEN a AND b) OR (x BETWEEN b AND a)   -- taken from the standard, not from the code
+            if !between_any(e, c) { None }
+            else if !symmetric { Some(val_le(lit_val(*low), v) && val_le(v, lit_val(*high))) }
+            else { Some((val_le(lit_val(*low), v) && val_le(v, lit_val(*high))) || (val_le(lit_val(*high), v) && val_le(v, lit_val(*low)))) },
         _ => None,
     }
 }
@@ -112,7 +119,7 @@ pub open spec fn pred_keys_nonnull(p: IndexPredicate) -> bool {
 /// what where_clause_fully_satisfied_by_index has checked when it answers `true` (shape of e and of the predicate)
 pub open spec fn skip_shape(e: Expression, c: &str, p: IndexPredicate) -> bool {
     ||| (cmp_shape(e, c) && e->BinaryOp_op is Equal && (p matches IndexPredicate::Range(rp) && rp.start is Some && rp.end is Some && rp.inclusive_start && rp.inclusive_end))
-    ||| (e matches Expression::Between { expr, negated, .. } && !negated && is_col(*expr, c) && (p matches IndexPredicate::Range(rp) && rp.start is Some && rp.end is Some && rp.inclusive_start && rp.inclusive_end))
+    ||| (e matches Expression::Between { expr, negated, symmetric, .. } && !negated && !symmetric && is_col(*expr, c) && (p matches IndexPredicate::Range(rp) && rp.start is Some && rp.end is Some && rp.inclusive_start && rp.inclusive_end))
     ||| (cmp_shape(e, c) && range_op(e->BinaryOp_op) && p is Range)
     ||| (e matches Expression::BinaryOp { op: BinaryOperator::And, left, right } && is_range_binop(*left) && is_range_binop(*right)
             && (p matches IndexPredicate::Range(rp) && rp.start is Some && rp.end is Some))
@@ -241,6 +248,6 @@ CANARIES = ['canary_extract', 'canary_skip', 'canary_lemma']
 TRUSTED = list(_ast.AST_TRUSTED) + [
     'R3: x.as_ref() on Box<Expression> rewritten to &**x',
     'external_body opt_val_eq: Option<SqlValue> equality in the Equal arm of where_clause_fully_satisfied_by_index, result uninterpreted (only strengthens the check)',
-    'holds(): the reference semantics of the WHERE fragment (col op literal, literal op col, BETWEEN, AND) on a non-NULL column value; BETWEEN SYMMETRIC and everything else is outside the fragment (nothing claimed)',
+    'holds(): the reference semantics of the WHERE fragment (col op literal, literal op col, BETWEEN [SYMMETRIC], AND) on a non-NULL column value; everything else is outside the fragment (nothing claimed). BETWEEN SYMMETRIC is given its SQL meaning, so a range extracted from it must be sound for it and the WHERE re-check may not be skipped for it',
     'IndexData::range_scan (BTreeMap::range) implementing in_range on normalised keys is not under contract (see I-kernels for the bound arithmetic)',
 ]
